@@ -115,7 +115,7 @@ def restTlvs : Nat → Bytes → List Tlv → Except String (Option (List Tlv))
       else if n ≥ arr.length then .ok none
       else restTlvs f (arr.drop n) (acc ++ [t])
 
-/-- `lldp.parse(raw)`: `ok (some tlvs)` = `parsed` is True -/
+/-- `lldp.parse(raw)`: `ok (some tlvs)` = `parsed` is True.  `r1`, `r2`, `r3` are `raw[pduhead:]` as `pduhead` advances. -/
 def parseLldp (raw : Bytes) : Except String (Option (List Tlv)) :=
   if raw.length < 14 then .ok none
   else match nextTlv raw with
@@ -123,17 +123,21 @@ def parseLldp (raw : Bytes) : Except String (Option (List Tlv)) :=
     | .ok none => .ok none
     | .ok (some (t1, n1)) =>
       if t1.type ≠ CHASSIS_ID_TLV then .ok none
-      else match nextTlv (raw.drop n1) with
+      else
+        let r1 := raw.drop n1
+        match nextTlv r1 with
         | .error e => .error e
         | .ok none => .ok none
         | .ok (some (t2, n2)) =>
           if t2.type ≠ PORT_ID_TLV then .ok none
-          else match nextTlv (raw.drop (n1 + n2)) with
+          else
+            let r2 := r1.drop n2
+            match nextTlv r2 with
             | .error e => .error e
             | .ok none => .ok none
             | .ok (some (t3, n3)) =>
               if t3.type ≠ TTL_TLV then .ok none
-              else restTlvs (raw.length + 1) (raw.drop (n1 + n2 + n3)) [t1, t2, t3]
+              else restTlvs (raw.length + 1) (r2.drop n3) [t1, t2, t3]
 
 def isSpace (c : UInt8) : Bool := c = 32 || (9 ≤ c && c ≤ 13)
 
@@ -152,25 +156,30 @@ def scanDigits (base : Nat) : List UInt8 → Nat → Nat → Bool → Option (Na
       | some d => if d < base then scanDigits base cs (acc * base + d) (n + 1) false else some (acc, n, lastU, c :: cs)
       | none => some (acc, n, lastU, c :: cs)
 
+/-- optional sign: (negative, rest) -/
+def stripSign (s : Bytes) : Bool × Bytes :=
+  match s with
+  | c :: r => if c = 43 then (false, r) else if c = 45 then (true, r) else (false, s)
+  | [] => (false, [])
+
+/-- `0x` / `0X` for base 16, then at most one underscore -/
+def stripPrefix (base : Nat) (s : Bytes) : Bytes :=
+  match s with
+  | c :: x :: r =>
+    if c = 48 ∧ base = 16 ∧ (x = 120 ∨ x = 88) then (match r with | u :: r' => if u = 95 then r' else r | [] => r) else s
+  | _ => s
+
 /-- CPython `int(s, base)` for `base ∈ {10, 16}` on ASCII input; `none` = ValueError -/
 def pyInt (base : Nat) (s : Bytes) : Option Int :=
-  let s1 := s.dropWhile isSpace
-  let (neg, s2) := match s1 with
-    | 43 :: r => (false, r)
-    | 45 :: r => (true, r)
-    | _ => (false, s1)
-  let s3 := match s2 with
-    | 48 :: x :: r => if base = 16 ∧ (x = 120 ∨ x = 88) then (match r with | 95 :: r' => r' | _ => r) else s2
-    | _ => s2
-  match s3 with
-  | 95 :: _ => none
-  | _ =>
-    match scanDigits base s3 0 0 false with
+  let sg := stripSign (s.dropWhile isSpace)
+  let s3 := stripPrefix base sg.2
+  if s3.head? = some 95 then none
+  else match scanDigits base s3 0 0 false with
     | none => none
-    | some (v, n, lastU, rest) =>
-      if lastU then none
-      else if n = 0 then none
-      else if (rest.dropWhile isSpace).isEmpty then some (if neg then -(v : Int) else (v : Int)) else none
+    | some r =>
+      if r.2.2.1 then none                 -- trailing underscore
+      else if r.2.1 = 0 then none          -- no digit
+      else if (r.2.2.2.dropWhile isSpace).isEmpty then some (if sg.1 then -(r.1 : Int) else (r.1 : Int)) else none
 
 /-- `s.split('\n')` -/
 def splitLines : Bytes → Bytes → List Bytes
@@ -237,13 +246,14 @@ def recoverTlvs (tlvs : Option (List Tlv)) : Except String Recovered :=
         | [] => .error "MalformedException"
   | some _ => .ok (.halt "short")
 
-/-- the whole path from frame bytes: Ethernet header (dst, src, type) then LLDP -/
+/-- the whole path from frame bytes: `event.parsed` parses the Ethernet header and (for type 0x88cc) the LLDP payload — a parser
+    exception surfaces here, whatever the destination — then :349-350 drop anything not sent to the discovery multicast address -/
 def recover (frame : Bytes) : Except String Recovered :=
   if frame.length < 14 then .ok (.halt "not-lldp")
-  else if frame.take 6 ≠ NDP_MULTICAST ∨ (frame.drop 12).take 2 ≠ LLDP_TYPE then .ok (.halt "not-lldp")
+  else if (frame.drop 12).take 2 ≠ LLDP_TYPE then .ok (.halt "not-lldp")
   else match parseLldp (frame.drop 14) with
     | .error e => .error e
-    | .ok tl => recoverTlvs tl
+    | .ok tl => if frame.take 6 ≠ NDP_MULTICAST then .ok (.halt "not-lldp") else recoverTlvs tl
 
 /-! ## Part 2: adjacency state machine -/
 
